@@ -488,7 +488,7 @@ fn search_secret() -> (usize, Option<Value>) {
     }
     // key derivation against an independent HMAC chain, including years below 1000 (the date text is always eight digits)
     for (y, m, d) in [(2015i32, 8u32, 30u32), (999, 12, 31), (476, 2, 29), (1, 1, 1), (9999, 12, 31), (2000, 2, 29)] {
-        for (region, service) in [("us-east-1", "service"), ("", "s3"), ("eu-west-1", "")] {
+        for (region, service) in [("us-east-1", "service"), ("", "s3"), ("eu-west-1", ""), ("US-EAST-1", "Service"), ("eu-z\u{fc}rich-1", "S3"), (" us-east-1", "s3 ")] {
             n += 1;
             let date = chrono::NaiveDate::from_ymd_opt(y, m, d).unwrap();
             let text = format!("{:04}{:02}{:02}", y, m, d);
@@ -1015,7 +1015,8 @@ fn search_differential(seed: u64, budget: usize, want: Option<&str>) -> (usize, 
         &[("X-Amz-Target", "Svc.Op"), ("ETag", "\"abc\"")], &[("X-Amz-Security-Token", "tok/en+="), ("x-amz-security-token", "second")], &[("Content-Type", "text/plain")],
         &[("x-foo", ""), ("x-foo", "a")], &[("x-bar", "a"), ("x-bar", ""), ("X-Bar", "b")], &[("Content-Length", "22")], &[("x-amz-content-sha256", "UNSIGNED-PAYLOAD")]];
     let dates = ["20150830T123600Z", "2015-08-30T12:36:00Z", "20150830T143600+0200", "2015-08-30T07:06:00.000-05:30", "20150830T123600,5Z", "20150830T123600", "2015-08-30 12:36:00Z", "20150830T123660Z", "20150230T123600Z", "20150830T122059Z", "20150830T125101Z", "20150830T125100Z", "20150830T122100Z",
-        "20150830T125100.5Z", "20150830T122059.999999999Z", "20150830T125100.000000001Z", "20150830T122100.0Z", "20150831T003000+1200", "20150829T233600-1300", "2015-08-30T12:36:00+00:00", "20150830T123600-0000", "20150830T123600.Z", "20150830T123600+2400", "20150830t123600z", " 20150830T123600Z"];
+        "20150830T125100.5Z", "20150830T122059.999999999Z", "20150830T125100.000000001Z", "20150830T122100.0Z", "20150831T003000+1200", "20150829T233600-1300", "2015-08-30T12:36:00+00:00", "20150830T123600-0000", "20150830T123600.Z", "20150830T123600+2400", "20150830t123600z", " 20150830T123600Z",
+        "20150830T120600-0030", "2015-08-30T12:06:00-00:30", "20150830T130600+0030", "20150830T123600+0000", "20150830T235959-1259"];
     let bodies: [&[u8]; 12] = [b"", b"a=3&c=4", b"x=%7E&x=~", b"\xEF\xBB\xBFa=b", b"a=%zz", b"\xff\xfe", b"k=v&&k2", b"b=2\n", b" a=1", b"a=1 ", b"\r\nz=9\r\n", b"a=b=c&d"];
     let ctypes = ["application/x-www-form-urlencoded", "application/x-www-form-urlencoded; charset=utf-8", "application/x-www-form-urlencoded;charset=UTF8", "application/x-www-form-urlencoded; Charset=klingon",
         "application/x-www-form-urlencoded ; boundary=x ; CHARSET=utf-8", "Application/X-WWW-Form-Urlencoded", "text/plain; charset=klingon", "application/x-www-form-urlencoded; charset"];
@@ -1083,7 +1084,7 @@ fn search_differential(seed: u64, budget: usize, want: Option<&str>) -> (usize, 
         }
         // post-signing mutations (0-2)
         for _ in 0..pick(&mut x, 3) {
-            match pick(&mut x, 22) {
+            match pick(&mut x, 24) {
                 0 => { for h in r.headers.iter_mut() { if h.0 == "Authorization" { h.1.push('0'); } } }
                 1 => { r.headers.push(("X-Unsigned".into(), "v".into())); }
                 2 => { r.headers.push(("X-Amz-Meta-New".into(), "v".into())); }
@@ -1105,6 +1106,8 @@ fn search_differential(seed: u64, budget: usize, want: Option<&str>) -> (usize, 
                 17 => { for h in r.headers.iter_mut() { if h.0 == "Authorization" { h.1 = h.1.replace("SignedHeaders=", "SignedHeaders=zz;"); } } }
                 18 => { for h in r.headers.iter_mut() { if h.0 == "Authorization" { if let Some(p) = h.1.find("Signature=") { let (a, b) = h.1.split_at(p + 10); h.1 = format!("{}{}", a, b.to_uppercase()); } } } }
                 20 => { r.headers.push(("Content-Length".into(), "7".into())); }
+                21 => { for h in r.headers.iter_mut() { if h.0 == "Authorization" { if let (Some(a), Some(b)) = (h.1.find("SignedHeaders="), h.1.find(", Signature=")) { if a < b { let up = h.1[a + 14..b].to_uppercase(); h.1.replace_range(a + 14..b, &up); } } } } }
+                22 => { for h in r.headers.iter_mut() { if h.0 == "Authorization" { h.1 = h.1.replace("Credential=", "Credential= ").replace("/us-east-1/", "/US-EAST-1/"); } } }
                 19 => { if let Some(p) = r.query.find("X-Amz-Signature=") { let (a, b) = r.query.split_at(p + 16); r.query = format!("{}{}", a, b.to_uppercase()); } }
                 _ => { r.method = if r.method == "GET" { "POST" } else { "GET" }; }
             }
@@ -1122,6 +1125,16 @@ fn search_differential(seed: u64, budget: usize, want: Option<&str>) -> (usize, 
         *MODEL_EXPECTED.lock().unwrap() = None;
         LOG_RECORDS.lock().unwrap().clear();
         let real = validate_with(&r, cfg.now, cfg.region, cfg.service, opt, &reqs);
+        // C18: the same request validated again (fresh HashMaps, fresh hash seeds) must give the same outcome and the same returned request
+        if want == Some("C18") {
+            for _ in 0..7 {
+                let again = validate_with(&r, cfg.now, cfg.region, cfg.service, opt, &reqs);
+                if again != real {
+                    return (n, Some(json!({"fn": "sigv4_validate_request", "case": "differential: the same request validated twice in one process gives different results", "seed": seed, "case_no": n, "speaks_about": ["C18"],
+                        "method": r.method, "path": r.path, "query": r.query, "headers": r.headers, "body_hex": hex::encode(&r.body), "first": format!("{:?}", real), "later": format!("{:?}", again)})));
+                }
+            }
+        }
         let real_calls = PROVIDER_CALLS.load(std::sync::atomic::Ordering::SeqCst);
         let real_token = LAST_TOKEN.lock().unwrap().clone();
         if matches!(&real, Err(e) if e.starts_with("http:")) { continue; } // the http crate refused to build the request: not an input
@@ -1139,7 +1152,7 @@ fn search_differential(seed: u64, budget: usize, want: Option<&str>) -> (usize, 
         // which property a disagreement speaks about: the rule the model applied (a request it refuses is accepted), completeness (a request it
         // accepts is refused), precedence/taxonomy (both refuse, different kinds), pass-through (both accept, different returned request)
         let about: Vec<&str> = match (&real, &model) {
-            (Ok(_), Err(k)) => { let mut v = vec![k.1]; if k.1 == "C01" { v.extend(blame_sections(&r, &cfg)); } v }
+            (Ok(_), Err(k)) => { let mut v = vec![k.1]; if k.1 == "C01" { v.extend(blame_sections(&r, &cfg)); } if k.1 == "C05" || k.1 == "C19" { v.push("C01"); } v }
             (Err(_), Ok(_)) => { let mut v = vec!["C02"]; if folds_for_signer { v.push("C12"); } v.extend(blame_sections(&r, &cfg)); v }
             (Err(_), Err(k)) => vec!["C13", k.1],
             (Ok(_), Ok((muri, _))) => if muri.is_some() { vec!["C15", "C12"] } else { vec!["C15"] },
@@ -1749,6 +1762,33 @@ fn search_requirement_mutators() -> (usize, Option<Value>) {
     reqs.add_prefix("x-p-");
     reqs.remove_prefix("X-P-");
     n += 1; if let Some(d) = check("prefix removed", &reqs, ("x-p-a", "1"), true, n) { return (n, Some(d)); }
+    // random sequences of add_* / remove_* against a model of the three lists (add: unless the lower-cased name is already an entry, append the name as
+    // given; remove: drop every entry equal up to ASCII case; nothing else changes), compared through the trait's getters
+    use scratchstack_aws_signature::SignedHeaderRequirements;
+    let names = ["X-A", "x-a", "Content-Type", "content-type", "x-amz-", "X-Amz-Meta-", "x-amz-meta-", "ETag"];
+    let mut x: u64 = 0x2545F4914F6CDD1D;
+    for _ in 0..3000 {
+        n += 1;
+        let mut real = VecSignedHeaderRequirements::default();
+        let mut model: [Vec<String>; 3] = [vec![], vec![], vec![]];
+        let mut ops: Vec<String> = Vec::new();
+        for _ in 0..(1 + xorshift(&mut x) % 7) {
+            let which = (xorshift(&mut x) % 3) as usize;
+            let name = names[(xorshift(&mut x) % names.len() as u64) as usize];
+            let add = xorshift(&mut x) % 3 != 0;
+            ops.push(format!("{}_{}({})", if add { "add" } else { "remove" }, ["always_present", "if_in_request", "prefix"][which], name));
+            match (add, which) {
+                (true, 0) => real.add_always_present(name), (true, 1) => real.add_if_in_request(name), (true, _) => real.add_prefix(name),
+                (false, 0) => real.remove_always_present(name), (false, 1) => real.remove_if_in_request(name), (false, _) => real.remove_prefix(name),
+            }
+            if add { if !model[which].iter().any(|e| *e == name.to_ascii_lowercase()) { model[which].push(name.to_string()); } }
+            else { model[which].retain(|e| e.to_ascii_lowercase() != name.to_ascii_lowercase()); }
+        }
+        let got: [Vec<String>; 3] = [real.always_present().iter().map(|c| c.to_string()).collect(), real.if_in_request().iter().map(|c| c.to_string()).collect(), real.prefixes().iter().map(|c| c.to_string()).collect()];
+        if got != model {
+            return (n, Some(json!({"fn": "VecSignedHeaderRequirements::add_* / remove_*", "case": "sequence of mutators", "operations": ops, "real_lists": got, "model_lists": model})));
+        }
+    }
     (n, None)
 }
 
@@ -1845,6 +1885,10 @@ fn searches_for(pid: &str, strict_d6: bool) -> Vec<(&'static str, (usize, Option
     }
     if all || pid == "C11" || pid == "C19" {
         v.push(("carriers", search_carriers()));
+    }
+    if pid == "C18" {
+        let seed: u64 = std::env::var("VERIF_SEED").ok().and_then(|s| s.parse().ok()).unwrap_or(0);
+        v.push(("differential_repeat", search_differential(seed, 30_000, Some("C18"))));
     }
     if ["C01", "C02", "C03", "C04", "C05", "C09", "C10", "C11", "C12", "C13", "C14", "C15", "C16", "C17", "C19"].contains(&pid) {
         let seed: u64 = std::env::var("VERIF_SEED").ok().and_then(|s| s.parse().ok()).unwrap_or(0);
